@@ -115,6 +115,11 @@ func cells(thorough bool) []Cell {
 						out = append(out, Cell{Mech: mech, Cache: cch, Proto: p, OverMode: o.mode, Over: o.ttl})
 					}
 				}
+
+				// the signing key with a certificate that expires before the tokens do (R seconds after T0)
+				for _, p := range []*int{nil, intp(3600), intp(30)} {
+					out = append(out, Cell{Mech: mech, Cache: cch, Proto: p, OverMode: "none", R: intp(certExpiry)})
+				}
 			}
 		case "remote-authz", "contextualizer":
 			for _, cch := range caches {
@@ -683,6 +688,10 @@ func menu(cell Cell, thorough bool) []int {
 
 		addR(t, def.mechLeeway, def.mechLeeway)
 		addT(t - def.mechLeeway)
+
+		if cell.R != nil {
+			addR(*cell.R, 1, 1)
+		}
 	default:
 		if cell.R != nil {
 			vl := def.mechLeeway
